@@ -12,6 +12,10 @@ translator's `REPO` is pointed at the copy, nothing is written to lean/OsacaVeri
 * ORDER cases: a reordering of a table that the code uses in an order-dependent way must show.
 * the given patches /tmp/harm/out-B/h{1,6,7}.diff are applied as well when the files exist
   (their content is also covered by text cases, so the test does not depend on them).
+* SEEDED: every seeded/*/patch.diff that touches a file the plug-ins read is applied (only to those
+  files); the plug-ins as they were before this work (`git show 6178834:tools/gen/...`) and the
+  present ones are run: a seeded change the old plug-in noticed (changed output / failure) must be
+  noticed by the new one.  Skipped with a note if git or that commit is not available.
 
 A replacement whose old text is not found exactly the stated number of times is a test ERROR
 (the pinned source changed: the case has to be rewritten), not a pass.
@@ -39,11 +43,32 @@ FILES = [X86, A64, FRONT, MAIN, ISA]
 VERBOSE = "-v" in sys.argv
 
 
+OLD_COMMIT = "6178834"  # the plug-ins before the G3 work
+GENS = ("RegTables", "ReportConsts")
+
+
 def load_plugins():
     for f in ("regtables.py", "reportconsts.py"):
         spec = importlib.util.spec_from_file_location("test_G3_" + f[:-3], os.path.join(TOOLS, "gen", f))
         mod = importlib.util.module_from_spec(spec)
         spec.loader.exec_module(mod)
+    return {g: T.GENERATORS[g][0] for g in GENS}
+
+
+def load_old_plugins(tmp):
+    """the generator functions of the plug-ins at OLD_COMMIT, or None"""
+    root = os.path.dirname(TOOLS)
+    for f in ("regtables.py", "reportconsts.py"):
+        r = subprocess.run(["git", "-C", root, "show", "%s:tools/gen/%s" % (OLD_COMMIT, f)], capture_output=True, text=True)
+        if r.returncode:
+            return None
+        path = os.path.join(tmp, "old_" + f)
+        with open(path, "w", encoding="utf-8") as fh:
+            fh.write(r.stdout)
+        spec = importlib.util.spec_from_file_location("test_G3_old_" + f[:-3], path)
+        mod = importlib.util.module_from_spec(spec)
+        spec.loader.exec_module(mod)
+    return {g: T.GENERATORS[g][0] for g in GENS}
 
 
 class CaseError(Exception):
@@ -94,9 +119,10 @@ def fresh(root):
         shutil.copy(os.path.join(SRC_REPO, rel), dst)
 
 
-def run_gen(name):
+def run_gen(name, fns=None):
+    fn = fns[name] if fns else T.GENERATORS[name][0]
     try:
-        return ("ok", T.GENERATORS[name][0]())
+        return ("ok", fn())
     except T.TranslateError as e:
         return ("fail", str(e))
     except Exception as e:  # an unexpected exception is a loud failure as well (translate.run records it)
@@ -198,6 +224,13 @@ REG_HARMLESS = {
     ],
     "is_basic_gpr with str.startswith(tuple)": [
         Sub(X86, "any(\n            " + GPR_EXCL + "\n        )", 'register.name.lower().startswith(("ymm", "zmm", "mm", "xmm"))'),
+    ],
+    "is_basic_gpr as a loop with early return over a reordered tuple": [
+        Sub(X86, "        if any(char.isdigit() for char in register.name) or any(\n            " + GPR_EXCL + "\n        ):\n            return False\n        return True\n",
+            "        if any(char.isdigit() for char in register.name):\n            return False\n"
+            "        lowered = register.name.lower()\n"
+            '        for stem in ("ymm", "xmm", "zmm", "mm"):\n            if lowered.startswith(stem):\n                return False\n'
+            "        return True\n"),
     ],
     "AArch64: locals renamed, classes in another order, any(...) over a tuple": [
         Sub(A64, A64_BODY,
@@ -358,6 +391,22 @@ REP_HARMLESS = {
         Sub(FRONT, '                if len("{:.2f}".format(port)) > port_len[i]:\n                    port_len[i] = len("{:.2f}".format(port))\n',
             '                w = len("{:.2f}".format(port))\n                port_len[i] = w if port_len[i] < w else port_len[i]\n'),
     ],
+    "width list rebuilt by a comprehension per instruction form (read by isolated execution)": [
+        Sub(FRONT, MAXLEN,
+            "        widths = [4] * len(self._machine_model.get_ports())\n"
+            "        for form in kernel:\n"
+            "            widths = [max(w, len(format(p, '.2f'))) for w, p in zip(widths, form.port_pressure)]\n"
+            "        return widths\n"),
+    ],
+    # behaviourally equivalent although it looks like a mutation: len('%.3f' % x) >= len('%.2f' % x) and at most
+    # one more, so the test `len(.3f) > w` selects exactly the x whose `.2f` width is >= w and the assignment
+    # stores the `.2f` width; the static reading rejects the shape, the isolated execution confirms the function
+    "width probe with .3f in the test only (equivalent; read by isolated execution)": [
+        Sub(FRONT, 'if len("{:.2f}".format(port)) >', 'if len("{:.3f}".format(port)) >')],
+    "warning helpers as static methods with type hints": [
+        Sub(FRONT, "    def _user_warnings_footer(self, lcd_warning):", "    @staticmethod\n    def _user_warnings_footer(lcd_warning: bool) -> str:"),
+        Sub(FRONT, "    def _get_flag_symbols(self, flag_obj):", "    def _get_flag_symbols(self, flag_obj: list) -> str:"),
+    ],
     "combined_view: locals renamed, separator constant at module level, precision arithmetic regrouped": [
         Sub(FRONT, r"\blineno_filler\b", "indent", 3, regex=True, within=CV),
         Sub(FRONT, r"\bcol_sep\b", "bar", 8, regex=True, within=CV),
@@ -438,8 +487,19 @@ for _h in ("h6", "h7"):
 REP_REAL = {
     "minimal column width 4 -> 5": [Sub(FRONT, "port_len = [4 for x in", "port_len = [5 for x in")],
     "width probe decimals .2f -> .3f": [Sub(FRONT, '"{:.2f}".format(port)', '"{:.3f}".format(port)', 2)],
-    "width probe decimals changed in the test only": [Sub(FRONT, 'if len("{:.2f}".format(port)) >', 'if len("{:.3f}".format(port)) >')],
     "running maximum turned into a running minimum (> -> <)": [Sub(FRONT, '.format(port)) > port_len[i]:', '.format(port)) < port_len[i]:')],
+    "comprehension form of the width list with min instead of max": [
+        Sub(FRONT, MAXLEN,
+            "        widths = [4] * len(self._machine_model.get_ports())\n"
+            "        for form in kernel:\n"
+            "            widths = [min(w, len(format(p, '.2f'))) for w, p in zip(widths, form.port_pressure)]\n"
+            "        return widths\n")],
+    "comprehension form of the width list with another precision": [
+        Sub(FRONT, MAXLEN,
+            "        widths = [4] * len(self._machine_model.get_ports())\n"
+            "        for form in kernel:\n"
+            "            widths = [max(w, len(format(p, '.3f'))) for w, p in zip(widths, form.port_pressure)]\n"
+            "        return widths\n")],
     "precision reserve 1 -> 2": [Sub(FRONT, "port_len[i] - left_len - 1, 0)", "port_len[i] - left_len - 2, 0)")],
     "precision operands swapped": [Sub(FRONT, "port_len[i] - left_len - 1, 0)", "left_len - port_len[i] - 1, 0)")],
     "CP/LCD title width 6 -> 7": [Sub(FRONT, '"{}{:^6}{}{:^6}{}"', '"{}{:^7}{}{:^7}{}"')],
@@ -499,12 +559,46 @@ REP_ORDER = {
 
 
 # =========================================================================== driver
+def seeded(tmp, old, new, failures):
+    root = os.path.dirname(TOOLS)
+    sdir = os.path.join(root, "seeded")
+    fresh(tmp)
+    base = {(w, g): run_gen(g, fns) for w, fns in (("old", old), ("new", new)) for g in GENS}
+    rows = 0
+    for name in sorted(os.listdir(sdir)) if os.path.isdir(sdir) else []:
+        patch = os.path.join(sdir, name, "patch.diff")
+        if not os.path.exists(patch) or not any(("b/" + rel) in open(patch, encoding="utf-8").read() for rel in FILES):
+            continue
+        fresh(tmp)
+        r = subprocess.run(["git", "apply"] + ["--include=" + rel for rel in FILES] + [patch], cwd=tmp, capture_output=True, text=True)
+        if r.returncode:
+            print("seeded %-45s does not apply to this tree (stale seed), skipped" % name)
+            continue
+        rows += 1
+        for g in GENS:
+            res = {}
+            for w, fns in (("old", old), ("new", new)):
+                st, out = run_gen(g, fns)
+                res[w] = "same" if (st, out) == base[(w, g)] else ("changed" if st == "ok" else "fails")
+            lost = res["old"] != "same" and res["new"] == "same"
+            if VERBOSE or lost or res["old"] != "same" or res["new"] != "same":
+                print("%-4s seeded %-45s %-12s old: %-8s new: %s" % ("BAD" if lost else "ok", name, g, res["old"], res["new"]))
+            if lost:
+                failures.append((g, "seeded", name, "old %s, new same" % res["old"]))
+    print("seeded: %d patches touching the plug-ins' sources compared (old plug-in vs new)" % rows)
+
+
 def main():
-    load_plugins()
     tmp = tempfile.mkdtemp(prefix="test_G3_")
     failures, errors, counts = [], [], {}
     try:
         T.REPO = tmp
+        old = load_old_plugins(tmp)
+        new = load_plugins()
+        if old is None:
+            print("note: git show %s:tools/gen/... not available, seeded comparison skipped" % OLD_COMMIT)
+        else:
+            seeded(tmp, old, new, failures)
         fresh(tmp)
         base = {}
         for g in ("RegTables", "ReportConsts"):
